@@ -362,7 +362,7 @@ public:
                "distinct (plan shape hash, signature of loop-tree shape)";
     }
     std::pair<int, int> pool_need() const override {
-        return {4, 0};
+        return {5, 0};
     }
     std::vector<std::pair<std::string, s64>> simplest_knobs() const override {
         return {{"hvariant", 0}, {"hcount", 0}};
